@@ -730,6 +730,14 @@ do_op(const struct op *o, int idx)
         return 0;
     }
 
+    if (IS("culr")) {
+        /* culr   ly_ctx_unset_options(LY_CTX_LEAFREF_LINKING) while linked data are alive (all link records are released), then set it again */
+        if (!(ly_ctx_get_options(ctx) & LY_CTX_LEAFREF_LINKING)) return -1;
+        rc = ly_ctx_unset_options(ctx, LY_CTX_LEAFREF_LINKING);
+        if (!rc) rc = ly_ctx_set_options(ctx, LY_CTX_LEAFREF_LINKING);
+        return rc;
+    }
+
     if (IS("zc")) {
         /* lydict_insert_zc consumes the malloc'd string, also when the string is already present */
         char *v = A_s(o, 1, NULL);
